@@ -54,8 +54,8 @@ Proof.
       destruct (Z.leb_spec (e x) 0) as [H1|H1]; destruct (Z.eqb_spec (e (nil_oracle x)) 1) as [H2|H2];
       cbn [negb andb]; intro H3;
       try (exfalso; apply H3; reflexivity); lia.
-  - destruct v; cbn in *; congruence.
-  - destruct v; cbn in *; congruence.
+  - destruct v; cbn in *; auto; congruence.
+  - destruct v; cbn in *; auto; congruence.
   - exact I.
 Qed.
 
@@ -226,42 +226,42 @@ Section WP.
       forall x e Q, wp_one wcall x e Q -> Forall (sat Q) (one prog call x e).
   Proof.
     intros call wcall Hc.
-    induction x using ev_ind'; intros e Q H; cbn [wp_one one] in *.
-    - destruct H as [Hr Hq]. rewrite (risk_okb_ok _ _ Hr). constructor; [exact Hq|constructor].
-    - destruct H as [Ha Hb].
+    induction x using ev_ind'; intros e Q HW; cbn [wp_one one] in *.
+    - destruct HW as [Hr Hq]. rewrite (risk_okb_ok _ _ Hr). constructor; [exact Hq|constructor].
+    - destruct HW as [Ha Hb].
       destruct (ceval c e) as [[|]|] eqn:E.
       + eapply run_list_sound; [eassumption|]. apply Ha. apply cmay_complete. cbn. congruence.
       + eapply run_list_sound; [eassumption|]. apply Hb. apply cmay_complete. cbn. congruence.
       + apply Forall_app; split; (eapply run_list_sound; [eassumption|]);
           [apply Ha|apply Hb]; apply cmay_complete; cbn; congruence.
-    - constructor; [exact H|constructor].
-    - destruct H as [Hq Hb]. constructor; [exact Hq|].
+    - constructor; [exact HW|constructor].
+    - destruct HW as [Hq Hb]. constructor; [exact Hq|].
       destruct (Z.leb_spec 0 (e (loop_oracle i))); cbn [andb]; [|constructor].
       destruct (Z.ltb_spec (e (loop_oracle i)) (e x)); [|constructor].
       apply loop_out_sat; [exact Hq|]. eapply run_list_sound; [eassumption|]. apply Hb. lia.
-    - destruct H as [Hq Hb]. constructor; [exact Hq|].
+    - destruct HW as [Hq Hb]. constructor; [exact Hq|].
       destruct (Z.leb_spec (teval lo e) (e (loop_oracle i))); cbn [andb]; [|constructor].
       destruct (Z.ltb_spec (e (loop_oracle i)) (teval hi e)); [|constructor].
       apply loop_out_sat; [exact Hq|]. eapply run_list_sound; [eassumption|]. apply Hb. lia.
-    - destruct H as [Hq Hb]. constructor; [exact Hq|].
+    - destruct HW as [Hq Hb]. constructor; [exact Hq|].
       destruct (ceval c e) as [[|]|] eqn:E; try constructor;
         (apply loop_out_sat; [exact Hq|]; eapply run_list_sound; [eassumption|];
          apply Hb; apply cmay_complete; cbn; congruence).
-    - constructor; [exact H|constructor].
+    - constructor; [exact HW|constructor].
     - destruct (ceval c e) as [[|]|] eqn:E; try constructor; try constructor;
-        apply H; apply cmay_complete; cbn; congruence.
-    - constructor; [exact H|constructor].
-    - destruct H as [Hk Hq].
+        apply HW; apply cmay_complete; cbn; congruence.
+    - constructor; [exact HW|constructor].
+    - destruct HW as [Hk Hq].
       destruct (Z.leb_spec 0 (teval k e)); [|lia]. cbn [andb].
       destruct (Z.leb_spec (teval k e) (e x)); [|lia].
       constructor; [exact Hq|constructor].
-    - constructor; [exact H|constructor].
+    - constructor; [exact HW|constructor].
     - destruct (prog f) as [body|]; [|contradiction].
-      specialize (Hc _ _ _ H). unfold call_out. apply Forall_map.
+      specialize (Hc _ _ _ HW). unfold call_out. apply Forall_map.
       eapply Forall_impl; [|exact Hc]. intros [e'|t v| |t] Ho; cbn in *; auto.
-    - constructor; [exact H|constructor].
-    - constructor; [exact H|constructor].
-    - constructor; [exact H|constructor].
+    - constructor; [exact HW|constructor].
+    - constructor; [exact HW|constructor].
+    - constructor; [exact HW|constructor].
     - contradiction.
   Qed.
 
@@ -295,7 +295,7 @@ End WP.
 
 (* ---- the tactic ---- *)
 Ltac risk_simpl :=
-  cbn -[Z.add Z.sub Z.mul Z.modulo Z.le Z.lt Z.ge Z.gt Z.div].
+  lazy -[Z.add Z.sub Z.mul Z.modulo Z.le Z.lt Z.ge Z.gt Z.div Z.opp].
 
 Ltac risk_split :=
   repeat match goal with
